@@ -147,6 +147,14 @@ func runScript(t *testing.T, script []Op) []string {
 				clock.Advance(time.Duration(op.Dt) * time.Second)
 				labels = append(labels, fmt.Sprintf("LAdv %d", op.Dt))
 				observe(prev)
+			case "advadd":
+				// Race: the clock advance makes the timer ready and the Add is issued without waiting for
+				// the run goroutine, so its select sees both; the harness cannot see which was served first.
+				clock.Advance(time.Duration(op.Dt) * time.Second)
+				labels = append(labels, fmt.Sprintf("LAdv %d", op.Dt))
+				st := dl.Add(toDuty(op.D))
+				labels = append(labels, fmt.Sprintf("RACE LAdd %d %s", op.D, statusName(st)))
+				observe(prev)
 			case "read":
 				for i := 0; i < op.N; i++ {
 					if !read() {
@@ -186,6 +194,18 @@ func genScript(r *rand.Rand, kind string) []Op {
 				if !lag || r.Intn(4) == 0 {
 					s = append(s, Op{Op: "read", N: 1 + r.Intn(12)})
 				}
+			}
+		}
+		s = append(s, Op{Op: "adv", Dt: 10})
+	case "race": // adds issued while a timer is ready but possibly not yet served
+		maxSlot := 2 + r.Intn(4)
+		for i := 0; i < 3+r.Intn(5); i++ {
+			s = append(s, Op{Op: "add", D: (1+r.Intn(maxSlot))*4 + r.Intn(3)})
+		}
+		for i := 0; i < 1+r.Intn(2); i++ {
+			s = append(s, Op{Op: "advadd", Dt: 1 + r.Intn(2), D: (r.Intn(maxSlot+2))*4 + r.Intn(3)})
+			if r.Intn(2) == 0 {
+				s = append(s, Op{Op: "read", N: 1 + r.Intn(3)})
 			}
 		}
 		s = append(s, Op{Op: "adv", Dt: 10})
@@ -265,6 +285,8 @@ func TestGen(t *testing.T) {
 			kind = "burst"
 		case x <= 2:
 			kind = "edge"
+		case x == 3:
+			kind = "race"
 		}
 		hs = append(hs, History{ID: len(hs), Kind: kind, Script: genScript(r, kind)})
 	}
